@@ -127,6 +127,9 @@ pub fn build_env() -> Env {
             must(&mut s, Tx::one(ix::init_liq_record(ww.users[u].account, ww.payer), &[ww.payer]), "init liq record");
         }
     }
+    // the foreign group differs from the main one in its fee settings (so that a bank accrued under the
+    // wrong group is observably different)
+    must(&mut s, Tx::one(ix::config_group_fee(f.group, f.fee_admin, false), &[f.fee_admin]), "foreign group: program fees off");
     // emissions on bank 0 of both groups
     let em_mint = create_mint(&mut s, &w.payer, &w.mint_auth, &em_spec());
     let em_funding = create_token_account(&mut s, &w.payer, "G:em_funding", &em_mint, &w.roles.emissions, false);
@@ -632,7 +635,38 @@ pub fn goldens() -> Vec<Golden> {
             assert!(act::apply(&e.w, &mut s, &Action::Accrue { b: 0 }).committed);
             s
         }), Box::new(|e, s, sg| one_ix(act::user_ix(&e.w, s, &Action::CollectFees { b: 0 }, sg).unwrap(), &[sg])), vec![0]));
-    v.push(admin("lending_pool_accrue_bank_interest", Role::Anyone, Box::new(base), Box::new(|e, _s, sg| one_ix(ix::accrue(e.w.group, e.w.banks[0].key), &[sg])), vec![0]));
+    v.push(admin(
+        "lending_pool_accrue_bank_interest",
+        Role::Anyone,
+        Box::new(|e| {
+            // a day has passed: the accrual has an observable effect
+            let mut s = e.s.clone();
+            s.advance(86_400);
+            refresh_oracles(&mut s, &e.w);
+            s
+        }),
+        Box::new(|e, _s, sg| one_ix(ix::accrue(e.w.group, e.w.banks[0].key), &[sg])),
+        vec![0],
+    ));
+    // an empty receivership bracket (nothing seized, nothing repaid)
+    v.push(Golden {
+        name: "start_liquidation+end_liquidation(empty)",
+        role: Role::Anyone,
+        kind: Kind::Open,
+        subject: Some(0),
+        prep: Box::new(|e| {
+            let mut s = unhealthy(e);
+            fund_all_identities(e, &mut s);
+            s
+        }),
+        make: Box::new(|e, s, signer| {
+            let w = &e.w;
+            let acct = w.users[0].account;
+            let rem = w.risk_metas(s, &acct, None, None);
+            Tx::new(vec![ix::start_liquidation(acct, signer, rem.clone()), ix::end_liquidation(acct, signer, w.fee_wallet, rem)], &[signer])
+        }),
+        banks: vec![0, 1],
+    });
     v.push(admin(
         "lending_pool_withdraw_fees",
         Role::GroupAdmin,
